@@ -62,7 +62,10 @@ def strategy(tier):
                 st.fixed_dictionaries({'sid': ci}),
                 st.fixed_dictionaries({'sid': ci, 'any': st.just(True)})),
             'skip': st.one_of(st.none(), ci, st.lists(ci, max_size=3)),
-            'alias': st.booleans()}),
+            'alias': st.booleans(),
+            # fault: the transport of one recipient turns out to be dead
+            # (ping timeout) at the moment the emit tries to send to it
+            'dying': st.one_of(st.none(), st.none(), ci)}),
         st.fixed_dictionaries({
             'op': st.just('emit'), 'ns': ns,
             'to': st.lists(st.integers(0, 2), min_size=2, max_size=4),
@@ -304,7 +307,31 @@ def _run(case, w):
                 kw['room' if op.get('alias') else 'to'] = arg
             addressed = m.addressed(ns, rooms)
             expected = addressed - skip_set
+            dying = None
+            if op.get('dying') is not None and len(expected) >= 2:
+                exp_sorted = sorted(expected)
+                dying = exp_sorted[op['dying'] % len(exp_sorted)]
+                dsock = w.h.socket(w.t[w.clients[dying]['t']])
+                if dsock is None or dsock.closed:
+                    dying = None
+                else:
+                    # engine.io notices the ping timeout inside send(), closes
+                    # the socket and reports the disconnect from there
+                    dsock.last_ping = 1.0
             w.do(sio.emit('ev', {'tag': tag}, **kw))
+            if dying is not None:
+                dt = w.clients[dying]['t']
+                expected = expected - {dying}
+                for i, c2 in enumerate(w.clients):
+                    if c2['t'] == dt and c2['alive']:
+                        note_gone(i)
+                        m.gone(i)
+                        c2['alive'] = False
+                w.t_alive[dt] = False
+                w.h.drain(w.t[dt])
+                w.h.eio.sockets.pop(w.t[dt], None)
+                labels['recipient_died_during_emit'] = True
+                labels['nontrivial'] = True
             got = w.recv_all()
             want = {}
             for ci in expected:
